@@ -471,8 +471,17 @@ func runReader(tb ev.TB, c readerCase) (labels []string, nontrivial bool) {
 	case "fetch":
 		go func() {
 			// drain what is available, then block
-			for {
+			for spins := 0; ; {
 				_, err := r.FetchMessage(ctx)
+				var ke kafka.Error
+				if errors.As(err, &ke) && spins < 200 {
+					// the Reader hands errors of its group loop (e.g. coordinator not available) to the caller and goes on; one
+					// that was already queued may also win the race against the context's end, the next call then reports the latter
+					if ctx.Err() != nil {
+						spins++
+					}
+					continue
+				}
 				if err != nil {
 					blockedDone <- result{err, time.Since(eventAt)}
 					return
